@@ -8,6 +8,7 @@ import (
 // ---- functions and closures -----------------------------------------------------
 
 type fnCtx struct {
+	fnBase    int
 	fn        *Fn
 	canPanic  bool
 	loopDepth int
@@ -17,14 +18,16 @@ type fnCtx struct {
 }
 
 func (g *gen) enterFn(f *Fn) fnCtx {
-	c := fnCtx{g.fn, g.canPanic, g.loopDepth, g.labels, g.mult, g.noReturn}
+	c := fnCtx{g.fnBase, g.fn, g.canPanic, g.loopDepth, g.labels, g.mult, g.noReturn}
 	g.fn, g.loopDepth, g.labels, g.noReturn = f, 0, nil, false
+	g.fnBase = len(g.scopes) // the scopes below belong to enclosing functions or to the package
 	g.fnDepth++
 	return c
 }
 
 func (g *gen) leaveFn(c fnCtx) {
 	g.fn, g.canPanic, g.loopDepth, g.labels, g.mult, g.noReturn = c.fn, c.canPanic, c.loopDepth, c.labels, c.mult, c.noReturn
+	g.fnBase = c.fnBase
 	g.fnDepth--
 }
 
